@@ -1,8 +1,1738 @@
-//! C01 — not built yet.
+//! C01 — fresh encryptions decrypt to the plaintext, in every scheme, mode and level.
+//!
+//! E1 sections (all on the real `Encryptor` / `Decryptor`, compared with `refmodel::rlwe`):
+//!  * `tiny_all`  BFV/BGV, tiny (N,t): ALL t^N plaintexts (full and trimmed length) x every encryption mode x noise scripts
+//!  * `params`    BFV/BGV parameter sweep (N, 1..4(6) primes in asc/desc/rotated order, plain moduli of every kind, special-prime
+//!                flag) x boundary plaintexts x every mode x noise scripts
+//!  * `levels`    encrypt_zero* / encrypt_zero*_at(level) in all 3 schemes at EVERY level incl. the key level, all forms
+//!  * `uprng`     *_with_u_prng variants: same generator state => same mask, different state => different mask, generator advances
+//!  * `ckks`      CKKSEncoder -> encrypt -> decrypt -> decode at every level, scale grid, slot alphabets, all modes
+//!  * `tinyprime` chains that contain a coefficient prime <= 21 (smaller than the error range), real sampler
+//!
+//! Oracles per ciphertext: `is_valid_for`, metadata, decryption equals the plaintext exactly (BFV/BGV) / within the a-priori
+//! bound (CKKS, at coefficient level exactly and at slot level), exact phase noise (schoolbook c0 + c1*s, CRT, centring) within
+//! the a-priori worst-case bound, seeded ciphertexts refused by decrypt until expanded, destination-reuse forms byte-identical to
+//! the `_new` forms under the same entropy script.
+
 use crate::engine::*;
+use crate::he::{self, ct_fingerprint, ct_meta, Kit, Noise, ParamSpec, Scheme};
+use crate::refmodel::bigu::*;
+use crate::refmodel::rlwe::*;
+use heathcliff::util::{BlakeRNG, PRNGSeed};
+use heathcliff::{CKKSEncoder, Ciphertext, ExpandSeed, ParmsID, Plaintext, ValCheck, PARMS_ID_ZERO};
+use num_complex::Complex;
+use rand::SeedableRng;
+use serde::{Deserialize, Serialize};
+use std::time::Duration;
 
-pub fn describe(_rep: &Report) {}
+pub fn describe(rep: &Report) {
+    rep.set_rule(
+        "case = (parameter set with explicit primes, noise script for key generation (secret, error) and for encryption (mask, error)); \
+         each case builds context and keys once and loops over its whole plaintext alphabet x every encryption mode (x levels x scales); \
+         traces_validated_against_impl counts individual encrypt->decrypt round trips compared with the reference. A (mode, level) whose \
+         a-priori worst-case noise bound is not below the decryption threshold (margin 2^-10) is not judged on decryption (only on \
+         validity/metadata/noise); a case in which no mode is noise-valid is counted as skipped. non-trivial = at least one round trip judged.",
+    );
+    rep.assume("noise scripts (hook H2) AllMax/AllMin/Alt/Zero make secret, mask and error polynomials extremal; Real = sampler under scripted entropy (hook H1)");
+    rep.assume("a-priori noise calculus for magnitudes (s,u,bk,be) of secret, mask, key error, fresh error under the installed script (real sampler: 1,1,21,21; Zero script: 0): sk: be (BGV x t); pk unswitched: bk*u*N + be + be*s*N (BGV x t); pk switched by p: that/p + (1+sN)/2 (BGV: that/p + t(1+sN)); decryption is judged iff BFV t(2v+1)+1 < q, BGV 2v+t < q, CKKS 2(v+|m|) < q, each with margin 2^-10 (|m| = max(exact coefficients of the encoded plaintext, scale*max|z|+1))");
+    rep.assume("side condition checked on every ciphertext (stricter than the statement, protects the judged/skipped split): the exact phase noise (schoolbook c0+c1*s, CRT, centred) stays within the a-priori bound; BFV message scaling may be off by (t+1)/(2t) as in floor((q mod t)*m + floor((t+1)/2))/t)");
+    rep.assume("the NTT ordering (value i = evaluation at root^(2*bitrev(i)+1), root = NTTTables::root()) is taken from C09; the reference inverts it by schoolbook evaluation and cross-checks it on the ternary secret key of every case");
+    rep.assume("chain structure (which levels exist, which prime is dropped) is read from the HeContext (C13 judges it); CKKS encoding/decoding are used as black boxes whose combined error must stay inside the stated bound (C12 judges them separately)");
+    rep.assume("outside the bounds: N > 8 (16 thorough), more than 4 (6) primes, primes not among the largest of their bit size, plaintext alphabets beyond boundary values for t^N > 4096, parameter sets whose a-priori bound lies within 2^-10 of the decryption threshold, CKKS decode cancellation when the low word of q is smaller than a negative coefficient (needs a searched-for chain; C12)");
+}
 
-pub fn sections(_cfg: &RunCfg) -> Vec<Box<dyn AnySection>> {
-    vec![]
+// ------------------------------------------------------------------------------------------
+// shared types
+// ------------------------------------------------------------------------------------------
+
+#[derive(Serialize, Deserialize, Clone, Copy, Debug, PartialEq, Eq, Hash)]
+pub struct NoiseCombo {
+    /// key generation: secret
+    pub ks: Noise,
+    /// key generation: public-key error
+    pub ke: Noise,
+    /// encryption: mask u (ternary)
+    pub eu: Noise,
+    /// encryption: error
+    pub ee: Noise,
+}
+
+impl NoiseCombo {
+    fn new(ks: Noise, ke: Noise, eu: Noise, ee: Noise) -> Self {
+        NoiseCombo { ks, ke, eu, ee }
+    }
+    fn all_zero(&self) -> bool {
+        [self.ks, self.ke, self.eu, self.ee].iter().all(|&x| x == Noise::Zero)
+    }
+}
+
+fn combos(thorough: bool) -> Vec<NoiseCombo> {
+    use Noise::*;
+    if thorough {
+        let mut v = vec![NoiseCombo::new(Real, Real, Real, Real)];
+        let sc = [Zero, AllMax, AllMin, Alt];
+        for a in sc {
+            for b in sc {
+                for c in sc {
+                    for d in sc {
+                        v.push(NoiseCombo::new(a, b, c, d));
+                    }
+                }
+            }
+        }
+        v
+    } else {
+        vec![
+            NoiseCombo::new(Real, Real, Real, Real),
+            NoiseCombo::new(Zero, Zero, Zero, Zero),
+            // -e*u + e0 + e1*s = +21(2N+1) at coefficient N-1
+            NoiseCombo::new(AllMax, AllMin, AllMax, AllMax),
+            // = -21(2N+1) at coefficient N-1
+            NoiseCombo::new(AllMax, AllMax, AllMax, AllMin),
+            NoiseCombo::new(Alt, Alt, Alt, Alt),
+            NoiseCombo::new(AllMin, AllMax, Alt, AllMin),
+        ]
+    }
+}
+
+fn combos_small() -> Vec<NoiseCombo> {
+    use Noise::*;
+    vec![
+        NoiseCombo::new(Real, Real, Real, Real),
+        NoiseCombo::new(AllMax, AllMin, AllMax, AllMax),
+        NoiseCombo::new(AllMax, AllMax, AllMax, AllMin),
+        NoiseCombo::new(Alt, AllMin, Alt, Alt),
+    ]
+}
+
+#[derive(Serialize, Deserialize, Clone, Copy, Debug, PartialEq, Eq, Hash)]
+pub enum Mode {
+    /// encrypt_new
+    Pk,
+    /// encrypt(plain, &mut reused destination) — must equal encrypt_new under the same entropy
+    PkDest,
+    /// encrypt_symmetric(plain, &mut destination) (no seed), clean and reused destination
+    Sk,
+    /// encrypt_symmetric_new (seeded) + refusal + expand_seed
+    SkSeed,
+    PkU,
+    SkU,
+    SkSeedU,
+}
+
+const MODES: [Mode; 7] = [Mode::Pk, Mode::PkDest, Mode::Sk, Mode::SkSeed, Mode::PkU, Mode::SkU, Mode::SkSeedU];
+
+impl Mode {
+    fn public(self) -> bool {
+        matches!(self, Mode::Pk | Mode::PkDest | Mode::PkU)
+    }
+    fn seeded(self) -> bool {
+        matches!(self, Mode::SkSeed | Mode::SkSeedU)
+    }
+}
+
+fn sch(s: Scheme) -> Sch {
+    match s {
+        Scheme::BFV => Sch::Bfv,
+        Scheme::BGV => Sch::Bgv,
+        Scheme::CKKS => Sch::Ckks,
+    }
+}
+
+/// (key suffix, expected, observed)
+type Bad = (String, String, String);
+
+fn bad(k: impl Into<String>, e: impl Into<String>, o: impl Into<String>) -> Bad {
+    (k.into(), e.into(), o.into())
+}
+
+struct LevelInfo {
+    id: ParmsID,
+    lvl: Level,
+    /// prime dropped when coming from the previous (larger) level; None for the key level
+    dropped: Option<u64>,
+    /// level above the first data level (keys only)
+    pure_key: bool,
+}
+
+struct World {
+    kit: Kit,
+    levels: Vec<LevelInfo>,
+    /// index of the first data level in `levels`
+    first: usize,
+    s: Vec<i64>,
+    sch: Sch,
+    n: usize,
+    t: u64,
+    /// magnitudes of the small polynomials under the case's noise script
+    mags: Mags,
+}
+
+fn mag(x: Noise, max: u64) -> u64 {
+    if x == Noise::Zero {
+        0
+    } else {
+        max
+    }
+}
+
+impl World {
+    /// Context + keys under the key-generation part of the noise combo; Err(reason) when the library rejects the parameters.
+    fn build(spec: &ParamSpec, nc: &NoiseCombo, seed: u64, tag: u64) -> Result<World, String> {
+        he::env(seed, tag, nc.ks.mode(), nc.ke.mode());
+        let kit = match guard(|| Kit::new(spec)) {
+            Ok(Ok(k)) => k,
+            Ok(Err(e)) => return Err(e),
+            Err(p) => return Err(format!("panic while building context/keys: {p}")),
+        };
+        let n = spec.n;
+        let mut levels = vec![];
+        let mut cd = kit.ctx.key_context_data();
+        let first_id = *kit.ctx.first_parms_id();
+        let mut first = 0usize;
+        let mut prev_last: Option<u64> = None;
+        let mut seen_first = false;
+        while let Some(c) = cd {
+            let moduli: Vec<u64> = c.parms().coeff_modulus().iter().map(|m| m.value()).collect();
+            let roots: Vec<u64> = c.small_ntt_tables().iter().map(|t| t.root()).collect();
+            let id = *c.parms_id();
+            if id == first_id {
+                first = levels.len();
+                seen_first = true;
+            }
+            let last = *moduli.last().unwrap();
+            levels.push(LevelInfo { id, lvl: Level::new(n, moduli, roots), dropped: prev_last, pure_key: !seen_first });
+            prev_last = Some(last);
+            cd = c.next_context_data();
+        }
+        // secret key: NTT form at the key level; invert on the first modulus (and cross-check on the last)
+        let key = &levels[0].lvl;
+        let mut s = vec![0i64; n];
+        for (which, mi) in [(0usize, 0usize), (1, key.moduli.len() - 1)] {
+            let q = key.moduli[mi];
+            let c = naive_intt(&kit.sk.data()[mi * n..(mi + 1) * n], key.roots[mi], q);
+            for j in 0..n {
+                let v = if c[j] == 0 {
+                    0
+                } else if c[j] == 1 {
+                    1
+                } else if c[j] == q - 1 {
+                    -1
+                } else {
+                    return Err(format!("REFMODEL: secret key is not ternary under the reference inverse NTT (modulus {q}, coefficient {j} = {})", c[j]));
+                };
+                if which == 0 {
+                    s[j] = v;
+                } else if s[j] != v {
+                    return Err(format!("REFMODEL: secret key residues disagree between moduli (coefficient {j})"));
+                }
+            }
+        }
+        let t = spec.t;
+        let mags = Mags { s: mag(nc.ks, 1), u: mag(nc.eu, 1), bk: mag(nc.ke, ERR_MAX), be: mag(nc.ee, ERR_MAX) };
+        Ok(World { kit, levels, first, s, sch: sch(spec.scheme), n, t, mags })
+    }
+
+    fn first_level(&self) -> &LevelInfo {
+        &self.levels[self.first]
+    }
+
+    /// a-priori bound of an encryption of zero at level index li
+    fn bound(&self, li: usize, public: bool) -> Bound {
+        fresh_noise_bound(self.sch, self.n, self.t, public, if public { self.levels[li].dropped } else { None }, self.mags)
+    }
+
+    /// phase of a size-2 ciphertext at level li: per-modulus components in coefficient form
+    fn phase(&self, li: usize, ct: &Ciphertext) -> Vec<Vec<u64>> {
+        let l = &self.levels[li].lvl;
+        l.phase_components(ct.poly(0), ct.poly(1), ct.is_ntt_form(), &self.s)
+    }
+
+    fn expect_ntt(&self) -> bool {
+        self.sch != Sch::Bfv
+    }
+
+    /// metadata + validity of a fresh (non-seeded) ciphertext at a data level
+    fn check_fresh_meta(&self, li: usize, ct: &Ciphertext, scale: f64) -> Result<(), Bad> {
+        let l = &self.levels[li];
+        let exp = format!("parms_id of level {li}, size=2 cms={} N={} ntt={} scale={:e} cf=1 len={}", l.lvl.moduli.len(), self.n, self.expect_ntt(), scale, 2 * self.n * l.lvl.moduli.len());
+        if *ct.parms_id() != l.id
+            || ct.size() != 2
+            || ct.coeff_modulus_size() != l.lvl.moduli.len()
+            || ct.poly_modulus_degree() != self.n
+            || ct.is_ntt_form() != self.expect_ntt()
+            || ct.scale().to_bits() != scale.to_bits()
+            || ct.correction_factor() != 1
+            || ct.data().len() != 2 * self.n * l.lvl.moduli.len()
+        {
+            return Err(bad("metadata", exp, format!("{} parms_id_matches={}", ct_meta(ct), *ct.parms_id() == l.id)));
+        }
+        if !l.pure_key {
+            match guard(|| ct.is_valid_for(&self.kit.ctx)) {
+                Ok(true) => {}
+                Ok(false) => return Err(bad("is_valid_for-false", "fresh ciphertext is valid for its context", ct_meta(ct))),
+                Err(p) => return Err(bad(format!("is_valid_for-panic:{}", panic_class(&p)), "no panic", p)),
+            }
+        }
+        Ok(())
+    }
+}
+
+fn prng(seed: u64) -> BlakeRNG {
+    let mut b = [0u8; 64];
+    for i in 0..8 {
+        b[i * 8..i * 8 + 8].copy_from_slice(&h64(&(seed, i as u64, "c01-u-prng")).to_le_bytes());
+    }
+    BlakeRNG::from_seed(PRNGSeed(b))
+}
+
+/// A destination that already holds something unrelated (wrong size, flags, level, junk data).
+fn dirty(w: &World) -> Ciphertext {
+    let last = w.levels.last().unwrap();
+    let k = last.lvl.moduli.len();
+    Ciphertext::from_members(3, k, w.n, vec![0xAAAA_AAAA_AAAA_AAAAu64; 3 * k * w.n], last.id, 2.5, 7, !w.expect_ntt())
+}
+
+fn same_ct(a: &Ciphertext, b: &Ciphertext) -> bool {
+    ct_fingerprint(a) == ct_fingerprint(b) && a.data() == b.data()
+}
+
+/// words needed to store flag + seed
+const SEED_WORDS: usize = 9;
+
+/// Seed handling shared by all seeded modes: model says whether a seed fits; decrypt must refuse the compressed form.
+fn unseed(w: &World, li: usize, ct: Ciphertext, want_seed: bool) -> Result<Ciphertext, Bad> {
+    let fits = w.n * w.levels[li].lvl.moduli.len() >= SEED_WORDS;
+    let has = ct.contains_seed();
+    if !want_seed {
+        if has {
+            return Err(bad("seed-unexpected", "no seed in a ciphertext of a non-seeding call", "contains_seed() = true"));
+        }
+        return Ok(ct);
+    }
+    if has != fits {
+        return Err(bad("seed-presence", format!("contains_seed() = {fits} (polynomial has {} words, 9 needed)", w.n * w.levels[li].lvl.moduli.len()), format!("{has}")));
+    }
+    if !has {
+        return Ok(ct);
+    }
+    // the compressed form must be refused by the decryptor
+    if !w.levels[li].pure_key {
+        if let Ok(p) = guard(|| w.kit.dec.decrypt_new(&ct)) {
+            return Err(bad("seeded-not-refused", "decrypt refuses a ciphertext that still contains its seed", format!("returned a plaintext with {} coefficients", p.coeff_count())));
+        }
+    }
+    let ctx = w.kit.ctx.clone();
+    match guard(move || ct.expand_seed(&ctx)) {
+        Ok(e) => {
+            if e.contains_seed() {
+                return Err(bad("seed-still-present", "contains_seed() = false after expand_seed", "true"));
+            }
+            Ok(e)
+        }
+        Err(p) => Err(bad(format!("expand_seed-panic:{}", panic_class(&p)), "expand_seed succeeds", p)),
+    }
+}
+
+// ------------------------------------------------------------------------------------------
+// BFV / BGV: exact round trips
+// ------------------------------------------------------------------------------------------
+
+#[derive(Serialize, Deserialize, Clone, Copy, Debug, PartialEq, Eq, Hash)]
+pub enum Alpha {
+    /// all t^N polynomials, full length and zero-trimmed length
+    All,
+    /// boundary values {0,1,thr-1,thr,t-1}^len for every len 0..N
+    Boundary,
+    /// unit monomials x boundary values (short and full length), constant and alternating vectors
+    Edge,
+    /// as Edge, unit monomials at positions {0,1,N/2,N-2,N-1} only
+    EdgeFew,
+}
+
+fn boundary_values(t: u64) -> Vec<u64> {
+    let thr = (t + 1) >> 1;
+    let mut v = vec![0, 1 % t, thr - 1, thr % t, t - 1];
+    v.sort();
+    v.dedup();
+    v
+}
+
+/// plaintexts as coefficient vectors; the vector length is the plaintext's coeff_count (0 = empty plaintext)
+fn plaintexts(n: usize, t: u64, alpha: Alpha) -> Vec<Vec<u64>> {
+    let mut out: Vec<Vec<u64>> = vec![];
+    let product = |vals: &[u64], len: usize, out: &mut Vec<Vec<u64>>| {
+        let mut idx = vec![0usize; len];
+        loop {
+            out.push(idx.iter().map(|&i| vals[i]).collect());
+            let mut p = 0;
+            loop {
+                if p == len {
+                    return;
+                }
+                idx[p] += 1;
+                if idx[p] < vals.len() {
+                    break;
+                }
+                idx[p] = 0;
+                p += 1;
+            }
+        }
+    };
+    match alpha {
+        Alpha::All => {
+            let vals: Vec<u64> = (0..t).collect();
+            let mut full = vec![];
+            product(&vals, n, &mut full);
+            for v in full {
+                if v[n - 1] == 0 {
+                    let sig = v.iter().rposition(|&x| x != 0).map(|p| p + 1).unwrap_or(0);
+                    out.push(v[..sig].to_vec());
+                }
+                out.push(v);
+            }
+        }
+        Alpha::Boundary => {
+            let vals = boundary_values(t);
+            for len in 0..=n {
+                product(&vals, len, &mut out);
+            }
+        }
+        Alpha::Edge | Alpha::EdgeFew => {
+            let vals = boundary_values(t);
+            out.push(vec![]);
+            out.push(vec![0]);
+            out.push(vec![0; n]);
+            for i in 0..n {
+                if alpha == Alpha::EdgeFew && ![0, 1, n / 2, n.saturating_sub(2), n - 1].contains(&i) {
+                    continue;
+                }
+                for &v in vals.iter().filter(|&&v| v != 0) {
+                    let mut u = vec![0u64; i + 1];
+                    u[i] = v;
+                    out.push(u.clone());
+                    if i + 1 < n {
+                        u.resize(n, 0);
+                        out.push(u);
+                    }
+                }
+            }
+            for &v in vals.iter().filter(|&&v| v != 0) {
+                out.push(vec![v; n]);
+            }
+            let thr = (t + 1) >> 1;
+            out.push((0..n).map(|i| if i % 2 == 0 { t - 1 } else { thr % t }).collect());
+            out.push((0..n).map(|i| if i % 2 == 0 { thr - 1 } else { t - 1 }).collect());
+            out.push((0..n).map(|i| ((i as u128 * (t - 1) as u128) / (n as u128 - 1).max(1)) as u64).collect());
+            out.sort();
+            out.dedup();
+        }
+    }
+    out
+}
+
+#[derive(Serialize, Deserialize, Clone, Debug)]
+pub struct XCase {
+    pub spec: ParamSpec,
+    pub noise: NoiseCombo,
+    pub alpha: Alpha,
+    /// also run the three *_with_u_prng modes
+    #[serde(default)]
+    pub umodes: bool,
+}
+
+/// One encryption in `mode` of the BFV/BGV plaintext `pt`; returns the (expanded) ciphertext.
+fn encrypt_mode(w: &World, mode: Mode, pt: &Plaintext, seed: u64, item: u64, nc: &NoiseCombo) -> Result<Ciphertext, Bad> {
+    let li = w.first;
+    let enc = &w.kit.enc;
+    let reset = || he::env(seed, item, nc.eu.mode(), nc.ee.mode());
+    let pan = |what: &str, p: String| bad(format!("{what}-panic:{}", panic_class(&p)), format!("{what} succeeds on a valid plaintext"), p);
+    reset();
+    let ct = match mode {
+        Mode::Pk => guard(|| enc.encrypt_new(pt)).map_err(|p| pan("encrypt_new", p))?,
+        Mode::PkDest => {
+            let a = guard(|| enc.encrypt_new(pt)).map_err(|p| pan("encrypt_new", p))?;
+            reset();
+            let mut d = dirty(w);
+            guard(|| enc.encrypt(pt, &mut d)).map_err(|p| pan("encrypt", p))?;
+            if !same_ct(&a, &d) {
+                return Err(bad("dest-differs", "encrypt(plain, &mut reused destination) is byte-identical to encrypt_new under the same entropy", format!("new: {} / dest: {}", ct_meta(&a), ct_meta(&d))));
+            }
+            d
+        }
+        Mode::Sk => {
+            let mut a = Ciphertext::new();
+            guard(|| enc.encrypt_symmetric(pt, &mut a)).map_err(|p| pan("encrypt_symmetric", p))?;
+            reset();
+            let mut d = dirty(w);
+            guard(|| enc.encrypt_symmetric(pt, &mut d)).map_err(|p| pan("encrypt_symmetric", p))?;
+            if !same_ct(&a, &d) {
+                return Err(bad("dest-differs", "encrypt_symmetric into a reused destination equals the one into a fresh destination", format!("fresh: {} / reused: {}", ct_meta(&a), ct_meta(&d))));
+            }
+            d
+        }
+        Mode::SkSeed => guard(|| enc.encrypt_symmetric_new(pt)).map_err(|p| pan("encrypt_symmetric_new", p))?,
+        Mode::PkU => {
+            let mut r = prng(item);
+            guard(|| enc.encrypt_new_with_u_prng(pt, &mut r)).map_err(|p| pan("encrypt_new_with_u_prng", p))?
+        }
+        Mode::SkU => {
+            let mut r = prng(item);
+            let mut d = Ciphertext::new();
+            guard(|| enc.encrypt_symmetric_with_u_prng(pt, &mut r, &mut d)).map_err(|p| pan("encrypt_symmetric_with_u_prng", p))?;
+            d
+        }
+        Mode::SkSeedU => {
+            let mut r = prng(item);
+            guard(|| enc.encrypt_symmetric_new_with_u_prng(pt, &mut r)).map_err(|p| pan("encrypt_symmetric_new_with_u_prng", p))?
+        }
+    };
+    unseed(w, li, ct, mode.seeded())
+}
+
+/// Judge one fresh BFV/BGV ciphertext of message m (padded to N) at level li.
+/// `judge_decrypt` = the a-priori bound is below the decryption threshold.
+fn judge_exact(w: &World, li: usize, ct: &Ciphertext, m: &[u64], bound: &Bound, judge_decrypt: bool) -> Result<u64, Bad> {
+    let l = &w.levels[li];
+    w.check_fresh_meta(li, ct, 1.0)?;
+    // exact noise
+    let comps = w.phase(li, ct);
+    let mut noise_class = 0u64;
+    match w.sch {
+        Sch::Bfv => {
+            let ph = l.lvl.compose_unsigned(&comps);
+            // the library adds floor((q mod t)*m + floor((t+1)/2)) / t): off by at most (t+1)/(2t) from q*m/t
+            let lim = bound.scale(w.t).plus_half_of(w.t + 1);
+            for j in 0..w.n {
+                let wj = bfv_scaled_noise(&ph[j], m[j], w.t, &l.lvl.q);
+                if !lim.holds_for(&wj) {
+                    return Err(bad(
+                        "noise-exceeds-apriori-bound",
+                        format!("|t*phase - q*m| <= t*v + (t+1)/2 = {:.1} (v = {:.2})", lim.to_f64(), bound.to_f64()),
+                        format!("coefficient {j}: {:.1}", wj.to_f64()),
+                    ));
+                }
+                noise_class = noise_class.max(wj.mag.bits() as u64);
+            }
+        }
+        Sch::Bgv => {
+            let ph = l.lvl.compose_centered(&comps);
+            let lim = bound.plus_half_of(w.t);
+            for j in 0..w.n {
+                if !lim.holds_for(&ph[j]) {
+                    return Err(bad(
+                        "noise-exceeds-apriori-bound",
+                        format!("|phase| <= v + t/2 = {:.1} (v = {:.2})", lim.to_f64(), bound.to_f64()),
+                        format!("coefficient {j}: {:.1}", ph[j].to_f64()),
+                    ));
+                }
+                // (only meaningful when the phase cannot wrap around q)
+                if judge_decrypt && ph[j].rem_u64(w.t) != m[j] {
+                    return Err(bad("phase-not-congruent", format!("phase = m (mod t): coefficient {j} = {}", m[j]), format!("{}", ph[j].rem_u64(w.t))));
+                }
+                noise_class = noise_class.max(ph[j].mag.bits() as u64);
+            }
+        }
+        Sch::Ckks => unreachable!(),
+    }
+    if !judge_decrypt || l.pure_key {
+        return Ok(noise_class);
+    }
+    let dec = match guard(|| w.kit.dec.decrypt_new(ct)) {
+        Ok(p) => p,
+        Err(p) => return Err(bad(format!("decrypt-panic:{}", panic_class(&p)), "decrypt succeeds on a fresh ciphertext", p)),
+    };
+    let sig = m.iter().rposition(|&x| x != 0).map(|p| p + 1).unwrap_or(0).max(1);
+    let exp = &m[..sig];
+    if dec.data().as_slice() != exp || dec.coeff_count() != sig {
+        return Err(bad("wrong-plaintext", format!("{exp:?} (coeff_count {sig})"), format!("{:?} (coeff_count {})", dec.data(), dec.coeff_count())));
+    }
+    if *dec.parms_id() != PARMS_ID_ZERO || dec.scale() != 1.0 || !dec.is_valid_for(&w.kit.ctx) {
+        return Err(bad("decrypted-metadata", "parms_id zero, scale 1, valid for the context", format!("ntt_form={} scale={} valid={}", dec.is_ntt_form(), dec.scale(), dec.is_valid_for(&w.kit.ctx))));
+    }
+    Ok(noise_class)
+}
+
+fn mode_valid(w: &World, li: usize, public: bool, extra: &BigU) -> (Bound, bool) {
+    let b = w.bound(li, public);
+    let ok = noise_valid(w.sch, &b, w.t, &w.levels[li].lvl.q, extra);
+    (b, ok)
+}
+
+fn check_exact(section: &str, c: &XCase, seed: u64) -> CaseOut {
+    if !maybe_valid(&c.spec, &c.noise) {
+        return CaseOut::skip("not noise-valid in any mode (a-priori, from the parameters alone)");
+    }
+    let tag = h64(&serde_json::to_string(c).unwrap());
+    let w = match World::build(&c.spec, &c.noise, seed, tag) {
+        Ok(w) => w,
+        Err(e) if e.starts_with("REFMODEL") || e.starts_with("panic") => return CaseOut::fail(format!("{section}:{:?}:setup", c.spec.scheme), "context and keys can be built for accepted parameters", e),
+        Err(e) => return CaseOut::skip(&format!("library rejects the parameters: {e}")),
+    };
+    let li = w.first;
+    let (bpk, okpk) = mode_valid(&w, li, true, &BigU::zero());
+    let (bsk, oksk) = mode_valid(&w, li, false, &BigU::zero());
+    if !okpk && !oksk {
+        return CaseOut::skip("not noise-valid in any mode");
+    }
+    let pts = plaintexts(w.n, w.t, c.alpha);
+    let mut steps = 0u64;
+    let mut maxclass = 0u64;
+    for (pi, v) in pts.iter().enumerate() {
+        let pt = if v.is_empty() { Plaintext::new() } else { w.kit.plain(v) };
+        let mut m = v.clone();
+        m.resize(w.n, 0);
+        for (mi, &mode) in MODES.iter().enumerate() {
+            let (b, ok) = if mode.public() { (&bpk, okpk) } else { (&bsk, oksk) };
+            if !ok || (!c.umodes && matches!(mode, Mode::PkU | Mode::SkU | Mode::SkSeedU)) {
+                continue;
+            }
+            let item = h64(&(tag, pi as u64, mi as u64));
+            let r = encrypt_mode(&w, mode, &pt, seed, item, &c.noise).and_then(|ct| judge_exact(&w, li, &ct, &m, b, true));
+            match r {
+                Ok(cl) => {
+                    steps += 1;
+                    maxclass = maxclass.max(cl);
+                }
+                Err((k, e, o)) => {
+                    return CaseOut::fail(
+                        format!("{section}:{:?}:{:?}:{k}", c.spec.scheme, mode),
+                        format!("plaintext {v:?} ({}; noise {:?}): {e}", c.spec.label(), c.noise),
+                        o,
+                    )
+                }
+            }
+        }
+    }
+    let fl = w.kit.ctx.first_context_data().unwrap().qualifiers().using_fast_plain_lift;
+    let switched = w.first_level().dropped.is_some();
+    CaseOut::pass(steps > 0, h64(&(c.spec.scheme, okpk, oksk, fl, switched, w.levels.len(), w.n * w.first_level().lvl.moduli.len() >= SEED_WORDS, maxclass / 4)), steps)
+}
+
+// ------------------------------------------------------------------------------------------
+// parameter universes
+// ------------------------------------------------------------------------------------------
+
+/// distinct primes = 1 (mod 2n) of the given bit sizes (largest first within a size), all above the error range
+fn prime_chain(n: usize, bits: &[usize]) -> Option<Vec<u64>> {
+    let mut out: Vec<u64> = vec![];
+    for &b in bits {
+        let cnt = bits.iter().filter(|&&x| x == b).count();
+        let c: Vec<u64> = primes_1_mod(2 * n as u64, b, cnt + 2).into_iter().filter(|&p| p > 2 * ERR_MAX).collect();
+        let p = *c.iter().find(|p| !out.contains(p))?;
+        out.push(p);
+    }
+    Some(out)
+}
+
+/// first prime = 1 mod 2n of `bits` bits that is not in `avoid`
+fn batching_prime(n: usize, bits: usize, avoid: &[u64]) -> Option<u64> {
+    primes_1_mod(2 * n as u64, bits, avoid.len() + 1).into_iter().find(|p| !avoid.contains(p))
+}
+
+fn multisets(vals: &[usize], k: usize) -> Vec<Vec<usize>> {
+    fn rec(vals: &[usize], k: usize, start: usize, cur: &mut Vec<usize>, out: &mut Vec<Vec<usize>>) {
+        if cur.len() == k {
+            out.push(cur.clone());
+            return;
+        }
+        for i in start..vals.len() {
+            cur.push(vals[i]);
+            rec(vals, k, i, cur, out);
+            cur.pop();
+        }
+    }
+    let mut out = vec![];
+    rec(vals, k, 0, &mut vec![], &mut out);
+    out
+}
+
+/// ascending, descending and rotated order of a multiset of bit sizes
+fn orders(ms: &[usize]) -> Vec<Vec<usize>> {
+    let mut a = ms.to_vec();
+    a.sort();
+    let mut d = a.clone();
+    d.reverse();
+    let mut r = a.clone();
+    r.rotate_left(1);
+    let mut v = vec![a, d, r];
+    v.sort();
+    v.dedup();
+    v
+}
+
+fn bit_chains(thorough: bool) -> Vec<Vec<usize>> {
+    let mut v: Vec<Vec<usize>> = vec![];
+    for b in [7usize, 10, 13, 16, 20, 25, 30, 31, 40, 50, 59, 60] {
+        v.push(vec![b]);
+    }
+    let s2: &[usize] = if thorough { &[7, 13, 20, 30, 40, 60] } else { &[7, 20, 40, 60] };
+    for &a in s2 {
+        for &b in s2 {
+            v.push(vec![a, b]);
+        }
+    }
+    for p in [[59usize, 60], [60, 59], [31, 30], [30, 31]] {
+        v.push(p.to_vec());
+    }
+    let s3: &[usize] = if thorough { &[10, 30, 40, 60] } else { &[10, 30, 60] };
+    for ms in multisets(s3, 3) {
+        v.extend(orders(&ms));
+    }
+    let s4: &[usize] = if thorough { &[13, 30, 60] } else { &[13, 60] };
+    for ms in multisets(s4, 4) {
+        v.extend(orders(&ms));
+    }
+    if thorough {
+        for ms in multisets(&[20, 60], 5) {
+            v.extend(orders(&ms));
+        }
+        for ms in multisets(&[30, 60], 6) {
+            v.extend(orders(&ms));
+        }
+    }
+    v.sort();
+    v.dedup();
+    v.sort_by_key(|c| (c.len(), c.iter().sum::<usize>()));
+    v
+}
+
+/// plain moduli for a chain: t = 2, 3, odd composite, powers of two, batching primes below every q_i (fast lift),
+/// a batching prime just above the smallest q_i (multi-precision lift), large t
+fn plain_moduli(n: usize, q: &[u64], thorough: bool) -> Vec<u64> {
+    let mut v: Vec<u64> = if thorough { vec![2, 3, 15, 256, 1 << 30] } else { vec![2, 3, 256] };
+    for bits in if thorough { vec![6usize, 17, 20, 40] } else { vec![6usize, 20] } {
+        if let Some(p) = batching_prime(n, bits, q) {
+            v.push(p);
+        }
+    }
+    if let Some(p) = batching_prime(n, 60, q) {
+        v.push(p);
+    }
+    let minq = *q.iter().min().unwrap();
+    let minbits = 64 - minq.leading_zeros() as usize;
+    if q.len() >= 2 && minbits < 59 {
+        if let Some(p) = batching_prime(n, minbits + 1, q) {
+            v.push(p);
+        }
+        // just above the smallest prime: next odd number coprime to everything
+        let mut x = minq + 2;
+        while q.iter().any(|&p| x % p == 0) {
+            x += 2;
+        }
+        v.push(x);
+    }
+    if thorough {
+        v.extend([4, 255, 65537, 1 << 40, 1 << 59]);
+    }
+    v.retain(|&t| gcd_all(t, q));
+    v.sort();
+    v.dedup();
+    v
+}
+
+fn gcd(mut a: u64, mut b: u64) -> u64 {
+    while b != 0 {
+        (a, b) = (b, a % b);
+    }
+    a
+}
+fn gcd_all(t: u64, q: &[u64]) -> bool {
+    q.iter().all(|&p| gcd(t, p) == 1)
+}
+
+fn sweep_specs(thorough: bool) -> Vec<ParamSpec> {
+    let ns: &[usize] = if thorough { &[2, 4, 8, 16] } else { &[2, 4, 8] };
+    let mut out = vec![];
+    for bits in bit_chains(thorough) {
+        for &n in ns {
+            if n >= 16 && bits.len() > 2 {
+                continue;
+            }
+            let Some(q) = prime_chain(n, &bits) else { continue };
+            for scheme in [Scheme::BFV, Scheme::BGV] {
+                for t in plain_moduli(n, &q, thorough) {
+                    if !gcd_all(t, &q) {
+                        continue;
+                    }
+                    for sp in [false, true] {
+                        if sp && q.len() == 1 {
+                            continue;
+                        }
+                        let mut s = ParamSpec::new(scheme, n, q.clone(), t);
+                        s.special_enc = sp;
+                        out.push(s);
+                    }
+                }
+            }
+        }
+    }
+    out
+}
+
+/// cheap a-priori filter on the spec alone (assumes the regular chain shape): can any mode be noise-valid?
+fn maybe_valid(s: &ParamSpec, nc: &NoiseCombo) -> bool {
+    let k = s.q.len();
+    let first: &[u64] = if k == 1 || s.special_enc { &s.q } else { &s.q[..k - 1] };
+    let q = BigU::product(first);
+    let b = fresh_noise_bound(sch(s.scheme), s.n, s.t, false, None, Mags { s: 0, u: 0, bk: 0, be: mag(nc.ee, ERR_MAX) });
+    noise_valid(sch(s.scheme), &b, s.t, &q, &BigU::zero())
+}
+
+fn tiny_chains(size: u8) -> Vec<Vec<usize>> {
+    if size == 0 {
+        vec![vec![13], vec![60], vec![9, 9], vec![60, 7], vec![10, 9, 8], vec![40, 30, 20, 10]]
+    } else if size == 2 {
+        vec![
+            vec![10], vec![11], vec![12], vec![13], vec![14], vec![16], vec![20], vec![30], vec![60],
+            vec![7, 7], vec![8, 20], vec![9, 9], vec![10, 7], vec![10, 60], vec![13, 13], vec![20, 10], vec![30, 30], vec![60, 7], vec![60, 60],
+            vec![7, 7, 7], vec![8, 9, 10], vec![10, 9, 8], vec![13, 13, 13], vec![20, 10, 30], vec![30, 60, 7], vec![60, 60, 60],
+            vec![8, 8, 9, 9], vec![10, 20, 30, 40], vec![40, 30, 20, 10], vec![60, 60, 60, 60],
+        ]
+    } else {
+        vec![
+            vec![11], vec![12], vec![13], vec![20], vec![60],
+            vec![7, 7], vec![9, 9], vec![10, 60], vec![60, 7], vec![60, 60],
+            vec![7, 7, 7], vec![10, 9, 8], vec![30, 60, 7],
+            vec![8, 8, 9, 9], vec![40, 30, 20, 10],
+        ]
+    }
+}
+
+fn tiny_specs(nts: &[(usize, u64)], chains: &[Vec<usize>]) -> Vec<ParamSpec> {
+    let mut out = vec![];
+    for &(n, t) in nts {
+        for bits in chains {
+            let Some(q) = prime_chain(n, bits) else { continue };
+            if !gcd_all(t, &q) {
+                continue;
+            }
+            for scheme in [Scheme::BFV, Scheme::BGV] {
+                for sp in [false, true] {
+                    if sp && q.len() == 1 {
+                        continue;
+                    }
+                    let mut s = ParamSpec::new(scheme, n, q.clone(), t);
+                    s.special_enc = sp;
+                    out.push(s);
+                }
+            }
+        }
+    }
+    out
+}
+
+/// (N,t) groups of the `tiny_all` section with their chain list and noise scripts
+fn tiny_cases(thorough: bool) -> Vec<XCase> {
+    let mut groups: Vec<(Vec<(usize, u64)>, u8, Vec<NoiseCombo>)> = vec![];
+    if thorough {
+        groups.push((vec![(2, 2), (2, 3), (2, 5)], 2, combos(true)));
+        groups.push((vec![(4, 2), (4, 3)], 1, combos(true)));
+        groups.push((vec![(2, 4), (2, 17), (4, 4), (4, 5), (8, 2)], 2, combos(false)));
+        groups.push((vec![(2, 64)], 1, combos(false)));
+        groups.push((vec![(4, 8)], 1, combos_small()));
+    } else {
+        groups.push((vec![(2, 2), (2, 3), (2, 5), (2, 17)], 1, combos(false)));
+        groups.push((vec![(4, 3)], 1, combos_small()));
+        groups.push((vec![(4, 5)], 0, combos_small()));
+    }
+    let mut cases = vec![];
+    for (nts, size, cs) in groups {
+        for spec in tiny_specs(&nts, &tiny_chains(size)) {
+            for nc in &cs {
+                cases.push(XCase { spec: spec.clone(), noise: *nc, alpha: Alpha::All, umodes: true });
+            }
+        }
+    }
+    // simplest first: by number of plaintexts, then by chain length
+    cases.sort_by_key(|c| ((c.spec.t as u128).pow(c.spec.n as u32), c.spec.q.len()));
+    cases
+}
+
+// ------------------------------------------------------------------------------------------
+// encrypt_zero at every level, all three schemes
+// ------------------------------------------------------------------------------------------
+
+#[derive(Serialize, Deserialize, Clone, Debug)]
+pub struct LCase {
+    pub spec: ParamSpec,
+    pub noise: NoiseCombo,
+}
+
+#[derive(Clone, Copy, Debug, PartialEq, Eq)]
+enum ZForm {
+    PkNewAt,
+    PkAt,
+    SkAt,
+    SkSeedAt,
+    PkNewAtU,
+    PkAtU,
+    SkAtU,
+    SkSeedAtU,
+}
+
+const ZFORMS: [ZForm; 8] = [ZForm::PkNewAt, ZForm::PkAt, ZForm::SkAt, ZForm::SkSeedAt, ZForm::PkNewAtU, ZForm::PkAtU, ZForm::SkAtU, ZForm::SkSeedAtU];
+
+impl ZForm {
+    fn public(self) -> bool {
+        matches!(self, ZForm::PkNewAt | ZForm::PkAt | ZForm::PkNewAtU | ZForm::PkAtU)
+    }
+    fn seeded(self) -> bool {
+        matches!(self, ZForm::SkSeedAt | ZForm::SkSeedAtU)
+    }
+}
+
+fn zero_at(w: &World, f: ZForm, id: &ParmsID, item: u64) -> Result<Ciphertext, String> {
+    let e = &w.kit.enc;
+    match f {
+        ZForm::PkNewAt => guard(|| e.encrypt_zero_new_at(id)),
+        ZForm::PkAt => {
+            let mut d = dirty(w);
+            guard(|| e.encrypt_zero_at(id, &mut d)).map(|_| d)
+        }
+        ZForm::SkAt => {
+            let mut d = dirty(w);
+            guard(|| e.encrypt_zero_symmetric_at(id, &mut d)).map(|_| d)
+        }
+        ZForm::SkSeedAt => guard(|| e.encrypt_zero_symmetric_new_at(id)),
+        ZForm::PkNewAtU => {
+            let mut r = prng(item);
+            guard(|| e.encrypt_zero_new_at_with_u_prng(id, &mut r))
+        }
+        ZForm::PkAtU => {
+            let mut r = prng(item);
+            let mut d = dirty(w);
+            guard(|| e.encrypt_zero_at_with_u_prng(id, &mut r, &mut d)).map(|_| d)
+        }
+        ZForm::SkAtU => {
+            let mut r = prng(item);
+            let mut d = dirty(w);
+            guard(|| e.encrypt_zero_symmetric_at_with_u_prng(id, &mut r, &mut d)).map(|_| d)
+        }
+        ZForm::SkSeedAtU => {
+            let mut r = prng(item);
+            guard(|| e.encrypt_zero_symmetric_new_at_with_u_prng(id, &mut r))
+        }
+    }
+}
+
+/// the same form without a level argument (first data level)
+fn zero_first(w: &World, f: ZForm, item: u64) -> Result<Ciphertext, String> {
+    let e = &w.kit.enc;
+    match f {
+        ZForm::PkNewAt => guard(|| e.encrypt_zero_new()),
+        ZForm::PkAt => {
+            let mut d = dirty(w);
+            guard(|| e.encrypt_zero(&mut d)).map(|_| d)
+        }
+        ZForm::SkAt => {
+            let mut d = dirty(w);
+            guard(|| e.encrypt_zero_symmetric(&mut d)).map(|_| d)
+        }
+        ZForm::SkSeedAt => guard(|| e.encrypt_zero_symmetric_new()),
+        ZForm::PkNewAtU => {
+            let mut r = prng(item);
+            guard(|| e.encrypt_zero_new_with_u_prng(&mut r))
+        }
+        ZForm::PkAtU => {
+            let mut r = prng(item);
+            let mut d = dirty(w);
+            guard(|| e.encrypt_zero_with_u_prng(&mut r, &mut d)).map(|_| d)
+        }
+        ZForm::SkAtU => {
+            let mut r = prng(item);
+            let mut d = dirty(w);
+            guard(|| e.encrypt_zero_symmetric_with_u_prng(&mut r, &mut d)).map(|_| d)
+        }
+        ZForm::SkSeedAtU => {
+            let mut r = prng(item);
+            guard(|| e.encrypt_zero_symmetric_new_with_u_prng(&mut r))
+        }
+    }
+}
+
+/// CKKS: exact coefficient-level difference between a decrypted plaintext and the encrypted one
+fn ckks_noise(w: &World, li: usize, dec: &[u64], plain: &[u64]) -> Vec<BigI> {
+    let l = &w.levels[li].lvl;
+    let n = w.n;
+    let diff: Vec<u64> = (0..l.moduli.len() * n).map(|x| sub_mod(dec[x], plain[x], l.moduli[x / n])).collect();
+    l.compose_centered(&l.coeff_form(&diff, true))
+}
+
+/// Judge an encryption of zero at level li (any scheme).
+fn judge_zero(w: &World, li: usize, ct: &Ciphertext, public: bool) -> Result<u64, Bad> {
+    let l = &w.levels[li];
+    let b = w.bound(li, public);
+    if w.sch != Sch::Ckks {
+        let ok = noise_valid(w.sch, &b, w.t, &l.lvl.q, &BigU::zero());
+        let cl = judge_exact(w, li, ct, &vec![0u64; w.n], &b, ok)?;
+        if l.pure_key {
+            judge_pure_key(w, ct)?;
+        }
+        return Ok(cl * 2 + ok as u64);
+    }
+    w.check_fresh_meta(li, ct, 1.0)?;
+    let ph = l.lvl.compose_centered(&w.phase(li, ct));
+    let mut cl = 0;
+    for (j, p) in ph.iter().enumerate() {
+        if !b.holds_for(p) {
+            return Err(bad("noise-exceeds-apriori-bound", format!("|phase| <= {:.2}", b.to_f64()), format!("coefficient {j}: {:.1}", p.to_f64())));
+        }
+        cl = cl.max(p.mag.bits() as u64);
+    }
+    if l.pure_key {
+        judge_pure_key(w, ct)?;
+        return Ok(cl * 2);
+    }
+    let ok = noise_valid(Sch::Ckks, &b, 0, &l.lvl.q, &BigU::zero());
+    if !ok {
+        return Ok(cl * 2);
+    }
+    let dec = match guard(|| w.kit.dec.decrypt_new(ct)) {
+        Ok(p) => p,
+        Err(p) => return Err(bad(format!("decrypt-panic:{}", panic_class(&p)), "decrypt succeeds on a fresh ciphertext", p)),
+    };
+    let k = l.lvl.moduli.len();
+    if *dec.parms_id() != l.id || dec.scale() != 1.0 || dec.coeff_count() != k * w.n || dec.data().len() != k * w.n || !dec.is_valid_for(&w.kit.ctx) {
+        return Err(bad("decrypted-metadata", "plaintext at the ciphertext's level, scale 1, N*k words, valid", format!("level_matches={} scale={} coeff_count={} len={}", *dec.parms_id() == l.id, dec.scale(), dec.coeff_count(), dec.data().len())));
+    }
+    let v = ckks_noise(w, li, dec.data(), &vec![0u64; k * w.n]);
+    if v != ph {
+        return Err(bad("wrong-plaintext", "decrypted polynomial equals the phase c0 + c1*s", format!("{:?} vs phase {:?}", v.iter().map(|x| x.to_f64()).collect::<Vec<_>>(), ph.iter().map(|x| x.to_f64()).collect::<Vec<_>>())));
+    }
+    Ok(cl * 2 + 1)
+}
+
+/// A ciphertext produced at the pure key level: structurally fine, not usable as data.
+fn judge_pure_key(w: &World, ct: &Ciphertext) -> Result<(), Bad> {
+    let ctx = &w.kit.ctx;
+    let l = &w.levels[0];
+    if !ct.is_metadata_valid_for(ctx, true) || !ct.is_buffer_valid() {
+        return Err(bad("keylevel-metadata", "metadata valid when key levels are allowed, buffer valid", ct_meta(ct)));
+    }
+    let n = w.n;
+    for (x, &v) in ct.data().iter().enumerate() {
+        let q = l.lvl.moduli[(x / n) % l.lvl.moduli.len()];
+        if v >= q {
+            return Err(bad("keylevel-residue", format!("residue {x} < {q}"), format!("{v}")));
+        }
+    }
+    if ct.is_valid_for(ctx) {
+        return Err(bad("keylevel-valid", "a ciphertext at the pure key level is not valid data", "is_valid_for = true"));
+    }
+    if let Ok(p) = guard(|| w.kit.dec.decrypt_new(ct)) {
+        return Err(bad("keylevel-decrypt", "decrypt refuses a ciphertext at the pure key level", format!("returned {} coefficients", p.coeff_count())));
+    }
+    Ok(())
+}
+
+fn check_levels(c: &LCase, seed: u64) -> CaseOut {
+    let tag = h64(&serde_json::to_string(c).unwrap());
+    let sname = format!("levels:{:?}", c.spec.scheme);
+    let w = match World::build(&c.spec, &c.noise, seed, tag) {
+        Ok(w) => w,
+        Err(e) if e.starts_with("REFMODEL") || e.starts_with("panic") => return CaseOut::fail(format!("{sname}:setup"), "context and keys can be built for accepted parameters", e),
+        Err(e) => return CaseOut::skip(&format!("library rejects the parameters: {e}")),
+    };
+    let mut steps = 0u64;
+    let mut classes: Vec<u64> = vec![];
+    let mut judged_decrypt = false;
+    for li in 0..w.levels.len() {
+        let id = w.levels[li].id;
+        for (fi, &f) in ZFORMS.iter().enumerate() {
+            let item = h64(&(tag, li as u64, fi as u64));
+            he::env(seed, item, c.noise.eu.mode(), c.noise.ee.mode());
+            let what = format!("{f:?}");
+            let ct = match zero_at(&w, f, &id, item) {
+                Ok(ct) => ct,
+                Err(p) => return CaseOut::fail(format!("{sname}:{what}:panic:{}", panic_class(&p)), format!("encryption of zero at level {li} of {} succeeds", c.spec.label()), p),
+            };
+            let r = unseed(&w, li, ct.clone(), f.seeded()).and_then(|x| judge_zero(&w, li, &x, f.public()).map(|cl| (x, cl)));
+            let (_x, cl) = match r {
+                Ok(v) => v,
+                Err((k, e, o)) => return CaseOut::fail(format!("{sname}:{what}:{k}"), format!("level {li}{} of {} (noise {:?}): {e}", if w.levels[li].pure_key { " (key level)" } else { "" }, c.spec.label(), c.noise), o),
+            };
+            judged_decrypt |= cl & 1 == 1;
+            classes.push(cl);
+            steps += 1;
+            if li == w.first {
+                // the form without a level argument is the same call
+                he::env(seed, item, c.noise.eu.mode(), c.noise.ee.mode());
+                match zero_first(&w, f, item) {
+                    Ok(d) => {
+                        if !same_ct(&ct, &d) {
+                            return CaseOut::fail(format!("{sname}:{what}:first-level-form-differs"), "the form without a level equals the _at(first_parms_id) form under the same entropy", format!("{} vs {}", ct_meta(&ct), ct_meta(&d)));
+                        }
+                    }
+                    Err(p) => return CaseOut::fail(format!("{sname}:{what}:first-form-panic:{}", panic_class(&p)), "encryption of zero succeeds", p),
+                }
+                steps += 1;
+            }
+        }
+    }
+    // unknown level: refusal
+    let mut bogus = w.levels[0].id;
+    bogus[0] ^= 0x5a5a;
+    for f in [ZForm::PkNewAt, ZForm::SkAt, ZForm::SkSeedAt] {
+        if let Ok(ct) = zero_at(&w, f, &bogus, 1) {
+            return CaseOut::fail(format!("{sname}:{f:?}:unknown-level-accepted"), "a parms_id that is not in the chain is refused", ct_meta(&ct));
+        }
+        steps += 1;
+    }
+    CaseOut::pass(judged_decrypt, h64(&(c.spec.scheme, w.levels.len(), w.first, classes.iter().map(|c| c & 1).sum::<u64>(), classes.iter().max().map(|c| c / 8))), steps)
+}
+
+fn level_specs(thorough: bool) -> Vec<ParamSpec> {
+    let ns: &[usize] = if thorough { &[2, 4, 8, 16] } else { &[2, 4, 8] };
+    let chains: Vec<Vec<usize>> = {
+        let mut v: Vec<Vec<usize>> = vec![
+            vec![20], vec![60],
+            vec![20, 20], vec![30, 60], vec![60, 30], vec![13, 13], vec![60, 60],
+            vec![20, 30, 40], vec![40, 30, 20], vec![30, 60, 13], vec![60, 60, 60], vec![13, 13, 13],
+            vec![20, 30, 40, 50], vec![50, 40, 30, 20], vec![60, 13, 60, 13], vec![60, 60, 60, 60], vec![13, 20, 13, 20],
+        ];
+        if thorough {
+            v.extend([vec![30, 30, 30, 30, 30], vec![60, 50, 40, 30, 20], vec![20, 30, 40, 50, 60, 60], vec![60, 60, 60, 60, 60, 60], vec![13, 13, 20, 20, 30, 30], vec![10, 10], vec![10, 10, 10], vec![7, 8, 9, 10]]);
+        }
+        v
+    };
+    let mut out = vec![];
+    for bits in &chains {
+        for &n in ns {
+            let Some(q) = prime_chain(n, bits) else { continue };
+            for scheme in Scheme::all() {
+                let ts: Vec<u64> = if scheme == Scheme::CKKS { vec![0] } else { vec![2, 17, 256, batching_prime(n, 20, &q).unwrap_or(65537)] };
+                for t in ts {
+                    if scheme != Scheme::CKKS && !gcd_all(t, &q) {
+                        continue;
+                    }
+                    for sp in [false, true] {
+                        if sp && q.len() == 1 {
+                            continue;
+                        }
+                        let mut s = ParamSpec::new(scheme, n, q.clone(), t);
+                        s.special_enc = sp;
+                        out.push(s);
+                    }
+                }
+            }
+        }
+    }
+    out
+}
+
+// ------------------------------------------------------------------------------------------
+// *_with_u_prng
+// ------------------------------------------------------------------------------------------
+
+#[derive(Serialize, Deserialize, Clone, Debug)]
+pub struct UCase {
+    pub spec: ParamSpec,
+    /// error script of key generation and encryption (the mask is always really sampled)
+    pub err: Noise,
+}
+
+/// c_j - c'_j, centred, in coefficient form
+fn ct_diff(w: &World, li: usize, a: &Ciphertext, b: &Ciphertext, poly: usize) -> Vec<BigI> {
+    let l = &w.levels[li].lvl;
+    let n = w.n;
+    let (pa, pb) = (a.poly(poly), b.poly(poly));
+    let d: Vec<u64> = (0..l.moduli.len() * n).map(|x| sub_mod(pa[x], pb[x], l.moduli[x / n])).collect();
+    l.compose_centered(&l.coeff_form(&d, a.is_ntt_form()))
+}
+
+fn check_uprng(c: &UCase, seed: u64) -> CaseOut {
+    let tag = h64(&serde_json::to_string(c).unwrap());
+    let sname = format!("uprng:{:?}", c.spec.scheme);
+    let nc = NoiseCombo::new(Noise::Real, c.err, Noise::Real, c.err);
+    let w = match World::build(&c.spec, &nc, seed, tag) {
+        Ok(w) => w,
+        Err(e) if e.starts_with("REFMODEL") || e.starts_with("panic") => return CaseOut::fail(format!("{sname}:setup"), "context and keys can be built", e),
+        Err(e) => return CaseOut::skip(&format!("library rejects the parameters: {e}")),
+    };
+    let li = w.first;
+    let l = &w.levels[li];
+    let e = &w.kit.enc;
+    let mut steps = 0u64;
+    let fails = |k: String, ex: String, ob: String| CaseOut::fail(format!("{sname}:{k}"), format!("{} err={:?}: {ex}", c.spec.label(), c.err), ob);
+    // a plaintext (BFV/BGV) / encoded vector (CKKS) to encrypt
+    let pt: Plaintext = if w.sch == Sch::Ckks {
+        let enc = CKKSEncoder::new(w.kit.ctx.clone());
+        let bits = l.lvl.q.bits();
+        let scale = 2f64.powi(((bits as i32) / 2).clamp(2, 30));
+        match guard(|| enc.encode_c64_array_new(&[Complex::new(1.0, -0.5)], Some(l.id), scale)) {
+            Ok(p) => p,
+            Err(_) => return CaseOut::skip("encoder refuses the probe value"),
+        }
+    } else {
+        w.kit.plain(&(0..w.n as u64).map(|i| (i * 7 + 1) % w.t).collect::<Vec<_>>())
+    };
+    // bound on |c - c'| for equal mask, different error
+    let b2 = ERR_MAX as u128 * 2 * if w.sch == Sch::Bgv { w.t as u128 } else { 1 };
+    let diff_bound = |public: bool| -> Bound {
+        match (public, l.dropped) {
+            (true, Some(p)) => {
+                let extra: u128 = if w.sch == Sch::Bgv { w.t as u128 + 1 } else { 1 };
+                Bound { num: BigU::from_u128(b2).add(&BigU::from_u128(extra).mul_u64(p)), den: BigU::from_u64(p) }
+            }
+            _ => Bound::int(b2),
+        }
+    };
+    for (fi, form) in ["pk", "pk_zero", "sk", "sk_seed", "sk_zero_seed"].iter().enumerate() {
+        let public = form.starts_with("pk");
+        let call = |rng: &mut BlakeRNG| -> Result<Ciphertext, String> {
+            match *form {
+                "pk" => guard(|| e.encrypt_new_with_u_prng(&pt, rng)),
+                "pk_zero" => guard(|| e.encrypt_zero_new_with_u_prng(rng)),
+                "sk" => {
+                    let mut d = Ciphertext::new();
+                    guard(|| e.encrypt_symmetric_with_u_prng(&pt, rng, &mut d)).map(|_| d)
+                }
+                "sk_seed" => guard(|| e.encrypt_symmetric_new_with_u_prng(&pt, rng)),
+                _ => guard(|| e.encrypt_zero_symmetric_new_with_u_prng(rng)),
+            }
+        };
+        let item = h64(&(tag, fi as u64));
+        let run = |ent: u64, rng: &mut BlakeRNG| -> Result<(Ciphertext, Ciphertext), CaseOut> {
+            he::env(seed, ent, Noise::Real.mode(), c.err.mode());
+            let raw = call(rng).map_err(|p| fails(format!("{form}:panic:{}", panic_class(&p)), "the call succeeds".into(), p))?;
+            let ex = unseed(&w, li, raw.clone(), form.contains("seed")).map_err(|(k, ex, ob)| fails(format!("{form}:{k}"), ex, ob))?;
+            w.check_fresh_meta(li, &ex, if w.sch == Sch::Ckks && !form.contains("zero") { pt.scale() } else { 1.0 }).map_err(|(k, ex, ob)| fails(format!("{form}:{k}"), ex, ob))?;
+            Ok((raw, ex))
+        };
+        let mut ra = prng(item);
+        let (a_raw, a) = match run(item, &mut ra) {
+            Ok(x) => x,
+            Err(o) => return o,
+        };
+        // same generator state, different entropy for everything else
+        let mut ra2 = prng(item);
+        let (a2_raw, a2) = match run(item ^ 0x1111, &mut ra2) {
+            Ok(x) => x,
+            Err(o) => return o,
+        };
+        // different generator states (the mask space of tiny N is small: 3^N masks; several states are tried and at least one
+        // must give a different mask) and the generator used for `a` again (it must have advanced)
+        let mut others: Vec<Ciphertext> = vec![];
+        let mut repeats: Vec<Ciphertext> = vec![];
+        for alt in 1..=8u64 {
+            let mut rb = prng(item ^ (0x2222 * alt));
+            match run(item, &mut rb) {
+                Ok((_, x)) => others.push(x),
+                Err(o) => return o,
+            }
+            match run(item, &mut ra) {
+                Ok((_, x)) => repeats.push(x),
+                Err(o) => return o,
+            }
+        }
+        steps += 2 + others.len() as u64 + repeats.len() as u64;
+        // "different" is only observable when the modulus is much larger than the error-sized differences
+        let dbp = diff_bound(public);
+        let big_enough = l.lvl.q.bits() >= 24 && l.lvl.q.mul(&dbp.den) > dbp.num.shl(12);
+        if public {
+            if c.err == Noise::Zero && !same_ct(&a, &a2) {
+                return fails(format!("{form}:same-state-different-mask"), "equal u_prng state and zero error give byte-identical ciphertexts".into(), format!("{} vs {}", ct_meta(&a), ct_meta(&a2)));
+            }
+            let db = diff_bound(true);
+            for poly in 0..2 {
+                let d = ct_diff(&w, li, &a, &a2, poly);
+                if let Some(x) = d.iter().find(|x| !db.holds_for(x)) {
+                    return fails(format!("{form}:same-state-different-mask"), format!("equal u_prng state: the two ciphertexts differ by error terms only (|difference| <= {:.1})", db.to_f64()), format!("polynomial {poly}: difference {:.1}", x.to_f64()));
+                }
+            }
+            if big_enough {
+                for (set, why) in [(&others, "different-state-same-mask"), (&repeats, "generator-not-advanced")] {
+                    let all_same = set.iter().all(|o| ct_diff(&w, li, &a, o, 1).iter().all(|x| db.holds_for(x)));
+                    if all_same {
+                        return fails(format!("{form}:{why}"), "8 different u_prng states give at least one different mask".into(), "c1 differs by error terms only in all 8".into());
+                    }
+                }
+            }
+        } else {
+            // symmetric: the generator determines c1 completely (and the stored seed)
+            if a.poly(1) != a2.poly(1) || a_raw.poly(1) != a2_raw.poly(1) {
+                return fails(format!("{form}:same-state-different-mask"), "equal c1 generator state gives the same c1 (and the same stored seed)".into(), "c1 differs".into());
+            }
+            if big_enough && (others.iter().any(|o| a.poly(1) == o.poly(1)) || repeats.iter().any(|o| a.poly(1) == o.poly(1))) {
+                return fails(format!("{form}:different-state-same-mask"), "a different / advanced generator state gives a different c1".into(), "c1 identical".into());
+            }
+        }
+        // and they decrypt
+        if w.sch != Sch::Ckks {
+            let m: Vec<u64> = if form.contains("zero") { vec![0; w.n] } else { w.kit.dec_pad(&pt, w.n) };
+            let (bd, ok) = mode_valid(&w, li, public, &BigU::zero());
+            for x in [&a, &a2].into_iter().chain(others.iter()).chain(repeats.iter()) {
+                if let Err((k, ex, ob)) = judge_exact(&w, li, x, &m, &bd, ok) {
+                    return fails(format!("{form}:{k}"), ex, ob);
+                }
+                steps += 1;
+            }
+        }
+    }
+    CaseOut::pass(true, h64(&(c.spec.scheme, l.dropped.is_some(), c.err, w.n * l.lvl.moduli.len() >= SEED_WORDS)), steps)
+}
+
+trait DecPad {
+    fn dec_pad(&self, p: &Plaintext, n: usize) -> Vec<u64>;
+}
+impl DecPad for Kit {
+    fn dec_pad(&self, p: &Plaintext, n: usize) -> Vec<u64> {
+        let mut v = p.data()[..p.coeff_count()].to_vec();
+        v.resize(n, 0);
+        v
+    }
+}
+
+// ------------------------------------------------------------------------------------------
+// CKKS
+// ------------------------------------------------------------------------------------------
+
+#[derive(Serialize, Deserialize, Clone, Debug)]
+pub struct KCase {
+    pub spec: ParamSpec,
+    pub noise: NoiseCombo,
+}
+
+fn slot_values(thorough: bool) -> Vec<Complex<f64>> {
+    let c = Complex::new;
+    let mut v = vec![c(0.0, 0.0), c(1.0, 0.0), c(-1.0, 0.0), c(0.0, 1.0), c(0.125, 0.0), c(-256.0, 0.0), c(1048576.0, 0.0), c(1.5, -0.25)];
+    if thorough {
+        v.extend([c(0.0, -1.0), c(-0.125, 0.0), c(256.0, 0.0), c(-1048576.0, 0.0), c(1000.25, 3.0)]);
+    }
+    v
+}
+
+fn slot_vectors(slots: usize, thorough: bool) -> Vec<Vec<Complex<f64>>> {
+    let a = slot_values(thorough);
+    let mut out: Vec<Vec<Complex<f64>>> = vec![vec![]];
+    if slots <= 2 {
+        for len in 1..=slots {
+            let mut idx = vec![0usize; len];
+            'outer: loop {
+                out.push(idx.iter().map(|&i| a[i]).collect());
+                let mut p = 0;
+                loop {
+                    if p == len {
+                        break 'outer;
+                    }
+                    idx[p] += 1;
+                    if idx[p] < a.len() {
+                        break;
+                    }
+                    idx[p] = 0;
+                    p += 1;
+                }
+            }
+        }
+    } else {
+        for i in 0..slots {
+            for &v in a.iter().skip(1) {
+                let mut u = vec![Complex::new(0.0, 0.0); i + 1];
+                u[i] = v;
+                out.push(u.clone());
+                if i + 1 < slots {
+                    u.resize(slots, Complex::new(0.0, 0.0));
+                    out.push(u);
+                }
+            }
+        }
+        for &v in a.iter() {
+            out.push(vec![v; slots]);
+        }
+        out.push((0..slots).map(|i| a[1 + i % (a.len() - 1)]).collect());
+    }
+    out
+}
+
+fn scale_grid(qbits: usize, thorough: bool) -> Vec<f64> {
+    let hi = qbits as i32 - 2;
+    if hi < 1 {
+        return vec![];
+    }
+    let lo = hi.min(10);
+    let steps = if thorough { 6 } else { 4 };
+    let mut e: Vec<i32> = (0..steps).map(|i| lo + (hi - lo) * i / (steps - 1)).collect();
+    e.dedup();
+    let mut v: Vec<f64> = e.iter().map(|&x| 2f64.powi(x)).collect();
+    if hi >= 16 {
+        v.push(12345.678);
+    }
+    v
+}
+
+fn check_ckks(c: &KCase, seed: u64, thorough: bool) -> CaseOut {
+    let tag = h64(&serde_json::to_string(c).unwrap());
+    let w = match World::build(&c.spec, &c.noise, seed, tag) {
+        Ok(w) => w,
+        Err(e) if e.starts_with("REFMODEL") || e.starts_with("panic") => return CaseOut::fail("ckks:setup", "context and keys can be built for accepted parameters", e),
+        Err(e) => return CaseOut::skip(&format!("library rejects the parameters: {e}")),
+    };
+    let encoder = match guard(|| CKKSEncoder::new(w.kit.ctx.clone())) {
+        Ok(e) => e,
+        Err(p) => return CaseOut::fail("ckks:encoder-new-panic", "CKKSEncoder::new succeeds", p),
+    };
+    let slots = w.n / 2;
+    let vectors = slot_vectors(slots, thorough);
+    let mut steps = 0u64;
+    let mut refused = 0u64;
+    let mut unjudged = 0u64;
+    let mut classes = 0u64;
+    let fail = |k: String, e: String, o: String| CaseOut::fail(format!("ckks:{k}"), format!("{} noise {:?}: {e}", c.spec.label(), c.noise), o);
+    for li in 0..w.levels.len() {
+        let l = &w.levels[li];
+        let k = l.lvl.moduli.len();
+        for (si, &scale) in scale_grid(l.lvl.q.bits(), thorough).iter().enumerate() {
+            for (vi, z) in vectors.iter().enumerate() {
+                let p = match guard(|| encoder.encode_c64_array_new(z, Some(l.id), scale)) {
+                    Ok(p) => p,
+                    Err(_) => {
+                        refused += 1;
+                        continue;
+                    }
+                };
+                if l.pure_key {
+                    // a plaintext at the pure key level is not data: encryption refuses it (or, if it accepts, nothing is claimed)
+                    he::env(seed, tag, c.noise.eu.mode(), c.noise.ee.mode());
+                    if guard(|| w.kit.enc.encrypt_symmetric_new(&p)).is_err() {
+                        refused += 1;
+                    }
+                    continue;
+                }
+                // exact message coefficients
+                let pc = l.lvl.compose_centered(&l.lvl.coeff_form(p.data(), true));
+                let zmax = z.iter().map(|x| x.norm()).fold(0.0f64, f64::max);
+                // message magnitude: what the residues say, and (a-priori, the encoder's own range check is loose) scale*max|z|+1
+                let mmax = pc.iter().map(|x| x.mag.clone()).max().unwrap().max(ceil_to_bigu(scale * zmax).add(&BigU::one()));
+                for (mi, &mode) in [Mode::Pk, Mode::PkDest, Mode::Sk, Mode::SkSeed].iter().enumerate() {
+                    let b = w.bound(li, mode.public());
+                    if !noise_valid(Sch::Ckks, &b, 0, &l.lvl.q, &mmax) {
+                        unjudged += 1;
+                        continue;
+                    }
+                    let item = h64(&(tag, li as u64, si as u64, vi as u64, mi as u64));
+                    let what = format!("{mode:?}");
+                    let enc = &w.kit.enc;
+                    he::env(seed, item, c.noise.eu.mode(), c.noise.ee.mode());
+                    let r = match mode {
+                        Mode::Pk => guard(|| enc.encrypt_new(&p)),
+                        Mode::PkDest => {
+                            let mut d = dirty(&w);
+                            guard(|| enc.encrypt(&p, &mut d)).map(|_| d)
+                        }
+                        Mode::Sk => {
+                            let mut d = dirty(&w);
+                            guard(|| enc.encrypt_symmetric(&p, &mut d)).map(|_| d)
+                        }
+                        _ => guard(|| enc.encrypt_symmetric_new(&p)),
+                    };
+                    let ct = match r {
+                        Ok(ct) => ct,
+                        Err(pn) => return fail(format!("{what}:encrypt-panic:{}", panic_class(&pn)), format!("level {li} scale {scale} values {z:?}: encryption of a valid plaintext succeeds"), pn),
+                    };
+                    let ct = match unseed(&w, li, ct, mode.seeded()).and_then(|ct| w.check_fresh_meta(li, &ct, scale).map(|_| ct)) {
+                        Ok(ct) => ct,
+                        Err((kk, e, o)) => return fail(format!("{what}:{kk}"), format!("level {li} scale {scale} values {z:?}: {e}"), o),
+                    };
+                    let dec = match guard(|| w.kit.dec.decrypt_new(&ct)) {
+                        Ok(d) => d,
+                        Err(pn) => return fail(format!("{what}:decrypt-panic:{}", panic_class(&pn)), format!("level {li} scale {scale} values {z:?}: decryption succeeds"), pn),
+                    };
+                    if *dec.parms_id() != l.id || dec.scale().to_bits() != scale.to_bits() || dec.coeff_count() != k * w.n || dec.data().len() != k * w.n || !dec.is_valid_for(&w.kit.ctx) {
+                        return fail(format!("{what}:decrypted-metadata"), format!("level {li} scale {scale}: plaintext at the same level with the same scale, N*k words, valid"), format!("level_matches={} scale={} coeff_count={}", *dec.parms_id() == l.id, dec.scale(), dec.coeff_count()));
+                    }
+                    // coefficient level, exact
+                    let v = ckks_noise(&w, li, dec.data(), p.data());
+                    for (j, x) in v.iter().enumerate() {
+                        if !b.holds_for(x) {
+                            return fail(format!("{what}:noise-exceeds-apriori-bound"), format!("level {li} scale {scale} values {z:?}: |decrypted - encoded| <= {:.2} per coefficient", b.to_f64()), format!("coefficient {j}: {:.1}", x.to_f64()));
+                        }
+                        classes = classes.max(x.mag.bits() as u64);
+                    }
+                    if c.noise.all_zero() && dec.data() != p.data() {
+                        return fail(format!("{what}:zero-noise-not-exact"), format!("level {li} scale {scale}: with all-zero noise the decrypted plaintext equals the encoded one"), "differs".to_string());
+                    }
+                    // slot level
+                    let out = match guard(|| encoder.decode_new(&dec)) {
+                        Ok(o) => o,
+                        Err(pn) => return fail(format!("{what}:decode-panic:{}", panic_class(&pn)), format!("level {li} scale {scale} values {z:?}: decode succeeds"), pn),
+                    };
+                    let tol = w.n as f64 * (b.to_f64() + 0.5) / scale + (zmax + 1.0) * w.n as f64 * 2f64.powi(-40);
+                    for sidx in 0..slots {
+                        let want = z.get(sidx).copied().unwrap_or(Complex::new(0.0, 0.0));
+                        let err = (out[sidx] - want).norm();
+                        if !(err <= tol) {
+                            return fail(format!("{what}:slot-error"), format!("level {li} scale {scale} values {z:?}: slot {sidx} within {tol:e} of {want}"), format!("{} (error {err:e})", out[sidx]));
+                        }
+                    }
+                    steps += 1;
+                }
+            }
+        }
+    }
+    if steps == 0 {
+        return CaseOut::skip("no (level, scale, value) is noise-valid");
+    }
+    CaseOut::pass(true, h64(&(w.levels.len(), w.first, refused > 0, unjudged > 0, classes / 4)), steps)
+}
+
+fn ckks_specs(thorough: bool) -> Vec<ParamSpec> {
+    let ns: &[usize] = if thorough { &[2, 4, 8, 16] } else { &[2, 4, 8] };
+    let mut chains: Vec<Vec<usize>> = vec![
+        vec![20], vec![30], vec![60],
+        vec![30, 30], vec![40, 60], vec![60, 40], vec![60, 60], vec![20, 13],
+        vec![30, 40, 50], vec![50, 40, 30], vec![60, 60, 60], vec![25, 60, 25],
+        vec![40, 40, 40, 40], vec![60, 50, 40, 30], vec![30, 40, 50, 60],
+    ];
+    if thorough {
+        chains.extend([vec![13], vec![16], vec![40], vec![13, 13], vec![20, 20, 20], vec![60, 20, 60], vec![30, 30, 30, 30, 30], vec![60, 60, 60, 60, 60, 60], vec![20, 30, 40, 50, 59, 60]]);
+    }
+    let mut out = vec![];
+    for bits in &chains {
+        for &n in ns {
+            let Some(q) = prime_chain(n, bits) else { continue };
+            for sp in [false, true] {
+                if sp && q.len() == 1 {
+                    continue;
+                }
+                let mut s = ParamSpec::new(Scheme::CKKS, n, q.clone(), 0);
+                s.special_enc = sp;
+                out.push(s);
+            }
+        }
+    }
+    out
+}
+
+// ------------------------------------------------------------------------------------------
+// chains with a prime inside the error range
+// ------------------------------------------------------------------------------------------
+
+#[derive(Serialize, Deserialize, Clone, Debug)]
+pub struct TCase {
+    pub spec: ParamSpec,
+    /// number of round trips per mode
+    pub rounds: u64,
+    /// Real = the library's sampler (scripted entropy); scripted errors are reduced modulo every prime by the hook itself
+    #[serde(default = "real_combo")]
+    pub noise: NoiseCombo,
+}
+
+fn real_combo() -> NoiseCombo {
+    NoiseCombo::new(Noise::Real, Noise::Real, Noise::Real, Noise::Real)
+}
+
+fn check_tinyprime(c: &TCase, seed: u64) -> CaseOut {
+    let tag = h64(&serde_json::to_string(c).unwrap());
+    let nc = c.noise;
+    let sname = format!("tinyprime:{:?}", c.spec.scheme);
+    // key generation itself samples an error polynomial: a panic there is a finding, not a rejection
+    let w = match World::build(&c.spec, &nc, seed, tag) {
+        Ok(w) => w,
+        Err(e) if e.starts_with("panic") => return CaseOut::fail(format!("{sname}:panic"), format!("{}: keys can be generated for accepted parameters", c.spec.label()), e),
+        Err(e) if e.starts_with("REFMODEL") => return CaseOut::fail(format!("{sname}:setup"), format!("{}: reference model applies", c.spec.label()), e),
+        Err(e) => return CaseOut::skip(&format!("library rejects the parameters: {e}")),
+    };
+    let li = w.first;
+    if w.sch == Sch::Ckks {
+        return CaseOut::skip("BFV/BGV only");
+    }
+    let (bpk, okpk) = mode_valid(&w, li, true, &BigU::zero());
+    let (bsk, oksk) = mode_valid(&w, li, false, &BigU::zero());
+    if !okpk && !oksk {
+        return CaseOut::skip("not noise-valid in any mode");
+    }
+    let mut steps = 0;
+    for r in 0..c.rounds {
+        let v: Vec<u64> = (0..w.n as u64).map(|i| (r + i * 3) % w.t).collect();
+        let pt = w.kit.plain(&v);
+        for (mi, &mode) in [Mode::Pk, Mode::Sk, Mode::SkSeed].iter().enumerate() {
+            let (b, ok) = if mode.public() { (&bpk, okpk) } else { (&bsk, oksk) };
+            if !ok {
+                continue;
+            }
+            let item = h64(&(tag, r, mi as u64));
+            match encrypt_mode(&w, mode, &pt, seed, item, &nc).and_then(|ct| judge_exact(&w, li, &ct, &v, b, true)) {
+                Ok(_) => steps += 1,
+                Err((k, e, o)) => {
+                    // one root cause is expected here (error samples outside [0, q)); keep the signature coarse
+                    let class = if k.contains("-panic:") { "panic".to_string() } else { k.clone() };
+                    return CaseOut::fail(format!("{sname}:{class}"), format!("{} round {r} plaintext {v:?} mode {mode:?} noise {:?} [{k}]: {e}", c.spec.label(), c.noise), o);
+                }
+            }
+        }
+    }
+    CaseOut::pass(steps > 0, h64(&(c.spec.scheme, okpk, oksk, w.levels.len())), steps)
+}
+
+fn tinyprime_specs(thorough: bool) -> Vec<ParamSpec> {
+    let mut out = vec![];
+    // (N, small primes = 1 mod 2N that lie inside the error range [-21, 21])
+    let smalls: &[(usize, &[u64])] = &[(2, &[5, 13, 17]), (4, &[17]), (8, &[17])];
+    for &(n, ps) in smalls {
+        let big = prime_chain(n, &[30, 40]).unwrap();
+        for &p in ps {
+            let chains: Vec<Vec<u64>> = vec![vec![big[0], p], vec![p, big[0]], vec![big[0], p, big[1]], vec![big[0], big[1], p]];
+            for q in chains {
+                for scheme in [Scheme::BFV, Scheme::BGV] {
+                    for t in if thorough { vec![2u64, 3, 256] } else { vec![3u64] } {
+                        for sp in [false, true] {
+                            let mut s = ParamSpec::new(scheme, n, q.clone(), t);
+                            s.special_enc = sp;
+                            out.push(s);
+                        }
+                    }
+                }
+            }
+        }
+    }
+    out
+}
+
+// ------------------------------------------------------------------------------------------
+// sections
+// ------------------------------------------------------------------------------------------
+
+pub fn sections(cfg: &RunCfg) -> Vec<Box<dyn AnySection>> {
+    let seed = cfg.seed;
+    let thorough = cfg.thorough();
+    let mut v: Vec<Box<dyn AnySection>> = vec![];
+
+    // (1) tiny (N,t): all plaintexts
+    let cases = tiny_cases(thorough);
+    if std::env::var("VERIF_COUNTS").is_ok() {
+        eprintln!("[C01] section tiny_all: {} cases enumerated", cases.len());
+    }
+    v.push(
+        E1::new(
+            "tiny_all",
+            "BFV/BGV, (N,t) in {(2,2),(2,3),(2,5),(2,17),(4,3),(4,5)} (+ (2,4),(2,64),(4,2),(4,4),(4,8),(8,2) thorough): ALL t^N plaintexts in full and trimmed length x 7 encryption modes x 15 prime chains (6 for (4,5); 30 thorough; 1..4 primes, 7..60 bits, special-prime flag on/off) x noise scripts (6 for N=2, 4 for N=4; thorough: all 4^4 scripted + real for t<=5 (N=2) / t<=3 (N=4), 6 otherwise, 4 for (4,8))",
+            cases.into_iter(),
+            move |c: &XCase| check_exact("tiny_all", c, seed),
+        )
+        .deadline(Duration::from_secs(120))
+        .share(0.5),
+    );
+
+    // (2) parameter sweep
+    let mut cases: Vec<XCase> = vec![];
+    for spec in sweep_specs(thorough) {
+        let k = spec.q.len();
+        let alpha = if spec.n <= 2 || (thorough && spec.n <= 4 && k == 1) {
+            Alpha::Boundary
+        } else if spec.n <= 4 || (thorough && spec.n <= 8) {
+            Alpha::Edge
+        } else {
+            Alpha::EdgeFew
+        };
+        let cs = if thorough && k <= 2 { combos(false) } else { combos_small() };
+        for nc in cs {
+            cases.push(XCase { spec: spec.clone(), noise: nc, alpha, umodes: thorough });
+        }
+    }
+    if std::env::var("VERIF_COUNTS").is_ok() {
+        eprintln!("[C01] section params: {} cases enumerated", cases.len());
+    }
+    v.push(
+        E1::new(
+            "params",
+            "BFV/BGV, N in {2,4,8} (thorough: 16 for 1..2 primes) x prime chains (1 prime: 12 sizes; 2: all ordered pairs of {7,20,40,60} ({7,13,20,30,40,60} thorough) + (59,60),(60,59),(30,31),(31,30); 3 primes: multisets of {10,30,60} (+40 thorough), 4: of {13,60} (+30), thorough 5: of {20,60}, 6: of {30,60}, each in ascending/descending/rotated order) x plain moduli {2,3,256, batching primes of 6/20/60 bits (+15, 2^30, 17/40-bit batching primes, 4, 255, 65537, 2^40, 2^59 thorough), a batching prime and an odd number just above the smallest q_i (multi-precision lift)} x special-prime flag x boundary plaintext alphabet x 4 modes (7 thorough) x noise scripts",
+            cases.into_iter(),
+            move |c: &XCase| check_exact("params", c, seed),
+        )
+        .deadline(Duration::from_secs(120))
+        .share(1.0),
+    );
+
+    // (3) encryptions of zero at every level
+    let mut cases: Vec<LCase> = vec![];
+    for spec in level_specs(thorough) {
+        for nc in combos(thorough && spec.n <= 4) {
+            cases.push(LCase { spec: spec.clone(), noise: nc });
+        }
+    }
+    if std::env::var("VERIF_COUNTS").is_ok() {
+        eprintln!("[C01] section levels: {} cases enumerated", cases.len());
+    }
+    v.push(
+        E1::new(
+            "levels",
+            "BFV/BGV/CKKS x 17 chains (25 thorough) x N x t in {2,17,256,20-bit batching} x special-prime flag: encrypt_zero{,_symmetric}{,_new}_at{,_with_u_prng} at EVERY level from the key level to the last, the level-free forms, an unknown parms_id; noise scripts",
+            cases.into_iter(),
+            move |c: &LCase| check_levels(c, seed),
+        )
+        .deadline(Duration::from_secs(120))
+        .share(0.3),
+    );
+
+    // (4) u_prng variants
+    let mut cases: Vec<UCase> = vec![];
+    for spec in level_specs(thorough) {
+        if spec.t == 2 || spec.t == 256 {
+            continue;
+        }
+        for err in [Noise::Zero, Noise::Real, Noise::AllMax] {
+            cases.push(UCase { spec: spec.clone(), err });
+        }
+    }
+    if std::env::var("VERIF_COUNTS").is_ok() {
+        eprintln!("[C01] section uprng: {} cases enumerated", cases.len());
+    }
+    v.push(
+        E1::new(
+            "uprng",
+            "all *_with_u_prng entry points (pk, pk zero, sk, sk seeded, sk zero seeded) x 3 schemes x chains x error scripts {Zero, Real, AllMax}: equal generator state => equal mask (byte-identical with zero error, error-sized difference otherwise), different / advanced state => different mask, results decrypt",
+            cases.into_iter(),
+            move |c: &UCase| check_uprng(c, seed),
+        )
+        .deadline(Duration::from_secs(120))
+        .share(0.3),
+    );
+
+    // (5) CKKS
+    let mut cases: Vec<KCase> = vec![];
+    for spec in ckks_specs(thorough) {
+        for nc in if thorough { combos(false) } else { combos_small().into_iter().chain([NoiseCombo::new(Noise::Zero, Noise::Zero, Noise::Zero, Noise::Zero)]).collect() } {
+            cases.push(KCase { spec: spec.clone(), noise: nc });
+        }
+    }
+    if std::env::var("VERIF_COUNTS").is_ok() {
+        eprintln!("[C01] section ckks: {} cases enumerated", cases.len());
+    }
+    v.push(
+        E1::new(
+            "ckks",
+            "CKKS x 15 chains (24 thorough) x N x special-prime flag x every level x scale grid 2^min(10,.)..2^(log q - 2) (4 points, 6 thorough, + one non-power-of-two) x slot vectors (all of an 8(13)-value alphabet for <= 2 slots incl. short vectors; unit/constant/mixed vectors above) x {encrypt_new, encrypt, encrypt_symmetric, encrypt_symmetric_new+expand} x noise scripts",
+            cases.into_iter(),
+            move |c: &KCase| check_ckks(c, seed, thorough),
+        )
+        .deadline(Duration::from_secs(180))
+        .share(0.4),
+    );
+
+    // (6) primes inside the error range
+    let mut cases: Vec<TCase> = vec![];
+    for spec in tinyprime_specs(thorough) {
+        cases.push(TCase { spec: spec.clone(), rounds: if thorough { 4000 } else { 400 }, noise: real_combo() });
+        for nc in combos_small().into_iter().skip(1) {
+            cases.push(TCase { spec: spec.clone(), rounds: 40, noise: nc });
+        }
+    }
+    if std::env::var("VERIF_COUNTS").is_ok() {
+        eprintln!("[C01] section tinyprime: {} cases enumerated", cases.len());
+    }
+    v.push(
+        E1::new(
+            "tinyprime",
+            "BFV/BGV chains containing a coefficient prime in {5,13,17} (inside the error range +-21) next to 30/40-bit primes, every position, special-prime flag on/off, real sampler under scripted entropy, 400 (4000) round trips per mode; extremal noise scripts, 40 round trips",
+            cases.into_iter(),
+            move |c: &TCase| check_tinyprime(c, seed),
+        )
+        .deadline(Duration::from_secs(120))
+        .share(0.3),
+    );
+    // cheap sections first, so that an overloaded machine cuts the big sweeps (simplest-first inside) rather than whole sections
+    let order = ["tinyprime", "uprng", "levels", "ckks", "tiny_all", "params"];
+    v.sort_by_key(|s| order.iter().position(|o| *o == s.name()).unwrap_or(order.len()));
+    v
 }
